@@ -208,6 +208,8 @@ def discharge(c, w, timeout_ms, collect_smt=None):
                 pr.sample = (lin[0][0].key, lin[0][1].sexpr()[:600])
         else:
             for ob, t in lin:
+                if len(pr.failed) >= 6:
+                    break  # enough counterexamples from this path; the rest is not attempted
                 c.solver.push()
                 c.solver.add(z3.Not(t))
                 t0 = time.time()
